@@ -2174,7 +2174,11 @@ pub(crate) fn skip_attributes<R: Reader>(
         loop {
             if let Some(len) = get_attribute_size(form, encoding) {
                 // We know the length of this attribute. Accumulate that length.
-                skip_bytes += R::Offset::from_u8(len);
+                skip_bytes = skip_bytes
+                    .into_u64()
+                    .checked_add(u64::from(len))
+                    .ok_or(Error::UnsupportedOffset)
+                    .and_then(R::Offset::from_u64)?;
                 break;
             }
 
